@@ -8,7 +8,7 @@ from ..signatures import close
 
 PROPERTY_ID = "C04"
 RULE = ("Hypothesis build programs (part programs: <= 10 items per circuit, nesting <= 2, 4 qubits; part dense_nesting: 3 qubits, <= 4 items per circuit, every second item a sub-circuit with count 1..3) over all duration-carrying "
-        "operation kinds with fixed / registry / global durations from {0,.25,.5,1,1.5,2,3,7}, explicit relations of "
+        "operation kinds with fixed / registry / global durations from {0,.25,.5,1,1.5,2,3,7, 1+2^-11, 341/1024}, explicit relations of "
         "all three types on ~70 % of the items (references to earlier operations and sub-circuits), interpreted through "
         "DeclarativeCircuit.add under a generated global-duration override; up to two nested blocks per program are additionally "
         "re-scheduled after add() through their assignable relation (FOLLOWED_BY / JOINED_START to an earlier item of the same circuit). Oracle: for the circuit and every "
@@ -29,15 +29,19 @@ KINDS = P.MW_KINDS[:4] + P.SELECT_1Q + P.GENERIC_1Q + P.GENERIC_2Q + ["CPhase", 
                                                                        "TwoQubitVirtualPhase"]
 
 
+# the usual dyadic durations plus two that are no multiple of any coarse time grid (exactly representable in binary)
+DURATIONS = list(P.DYADIC) + [1.00048828125, 0.3330078125]
+
+
 def cfg():
     return P.GenCfg(kinds=KINDS, nq=4, max_items=10, max_depth=2, p_sub=18, p_rel=70, max_reps=3, globals_=True,
-                    global_zero=True, max_total_leaves=40)
+                    global_zero=True, max_total_leaves=40, durations=DURATIONS)
 
 
 def cfg_dense():
     """Few qubits, many small (repeated) sub-circuits inside sub-circuits, followers of whole blocks."""
     return P.GenCfg(kinds=["Wait", "Wait", "Rx180", "CPhase", "Barrier", "DispersiveMeasure", "Reset", "VirtualPark"], nq=3,
-                    max_items=4, max_depth=2, p_sub=55, p_rel=50, max_reps=3, globals_=False, max_total_leaves=40)
+                    max_items=4, max_depth=2, p_sub=55, p_rel=50, max_reps=3, globals_=False, max_total_leaves=40, durations=DURATIONS)
 
 
 def strat_dense():
